@@ -108,8 +108,11 @@ func (cmd *IdleCommand) Wait() error {
 
 func (c *Client) idle() (*idleCommand, error) {
 	cmd := &idleCommand{}
-	contReq := c.registerContReq(cmd)
 	cmd.enc = c.beginCommand("IDLE", cmd)
+	// Continuation requests are matched with the server's "+" in FIFO order:
+	// only register ours once we hold the encoder lock, otherwise the "+"
+	// answering another command's literal could be handed to us
+	contReq := c.registerContReq(cmd)
 	cmd.enc.flush()
 
 	_, err := contReq.Wait()
